@@ -9,7 +9,8 @@ TARGET_LAYOUTS = [('bare', 'zz'), ('pars', '(zz)'), ('tight', '(zz)'), ('multili
 MULTI_CHILDREN = [('CallML', 'f(x,\n  y).z'), ('BinOpML', '(a +\n b)'), ('TupleML', '(a,\n b)'), ('IfExpML', '(a if b\n else c)')]
 COMMENT_CHILDREN = [('BinOpCmtBS', '(a + # c:\\tmp\\\n b)'), ('CompareCmt', '(a < # cmt\n b)'), ('CallCmtBS', 'f(x, # c\\\n y)'),
                     ('BoolOpCmtBS', '(a and # \\\n b)'), ('IfExpCmtBS', '(a if b # \\\n else c)'),
-                    ('AttrCmtBS', '(a # c \\\n . b)'), ('StrImplicitML', '("a"\n "b")')]
+                    ('AttrCmtBS', '(a # c \\\n . b)'), ('StrImplicitML', '("a"\n "b")'),
+                    ('StrImplicitCmtBS', '("a" # c \\\n"b")')]
 # put path only (not precedence-table points): async statement heads, and positions that are leftmost inside an
 # f-string replacement field without being FormattedValue.value itself (a child starting with `{` must not abut the `{`)
 EXTRA_SLOTS = [
@@ -23,7 +24,36 @@ EXTRA_SLOTS = [
     ('FStr.deep.left', "v = f'{{{}.a.b + c}}'", False), ('FStr.IfExp.orelse', "v = f'{{a if b else {}}}'", False),
     ('FStr.spec', "v = f'{{{} + y:>{{w}}}}'", False),
 ]
-PAT_MULTI = [('SeqBracketFirst', '[a], [b]'), ('SeqParenFirst', '(a), (b)'), ('OrML', '(a |\n b)')]
+PAT_MULTI = [('SeqBracketFirst', '[a], [b]'), ('SeqParenFirst', '(a), (b)'), ('OrML', '(a |\n b)'),
+             ('ValueStrML', '("a"\n"b")'), ('ValueAttrML', '(a\n.b)')]
+# single operations outside the slot x child grid: (name, source, node getter, operation, source the result must be
+# structurally equal to)
+SPECIALS = [
+    ('starred_ml_child.tuple', 'x = *a, c', lambda f: f.body[0].value.elts[0], lambda n: n.replace('*(p +\n q)'),
+     'x = *(p +\n q), c'),
+    ('starred_ml_child.call', 'f(*a, c)', lambda f: f.body[0].value.args[0], lambda n: n.replace('*(p +\n q)'),
+     'f(*(p +\n q), c)'),
+    ('slice_one.BoolOp.lambda.0', 'a and b', lambda f: f.body[0].value,
+     lambda n: n.put_slice('lambda: x', 0, 1, 'values', one=True), '(lambda: x) and b'),
+    ('slice_one.BoolOp.lambda.1', 'a and b', lambda f: f.body[0].value,
+     lambda n: n.put_slice('lambda: x', 1, 2, 'values', one=True), 'a and (lambda: x)'),
+    ('slice_one.BoolOp.ifexp', 'a or b', lambda f: f.body[0].value,
+     lambda n: n.put_slice('p if q else r', 0, 1, 'values', one=True), '(p if q else r) or b'),
+    ('slice_one.Compare.lambda.0', 'a < b', lambda f: f.body[0].value,
+     lambda n: n.put_slice('lambda: x', 0, 1, '_all', one=True), '(lambda: x) < b'),
+    ('slice_one.Compare.lambda.1', 'a < b', lambda f: f.body[0].value,
+     lambda n: n.put_slice('lambda: x', 1, 2, '_all', one=True), 'a < (lambda: x)'),
+    ('slice_one.Compare.boolop', 'a < b', lambda f: f.body[0].value,
+     lambda n: n.put_slice('p or q', 1, 2, '_all', one=True), 'a < (p or q)'),
+    ('slice_one.Tuple.walrus', 'x = a, b', lambda f: f.body[0].value,
+     lambda n: n.put_slice('p := q', 0, 1, 'elts', one=True), 'x = (p := q), b'),
+    ('primitive.int_under_attribute', 'x = 1.0.real', lambda f: f.body[0].value.value, lambda n: n.put(2, 'value'),
+     'x = (2).real'),
+    ('primitive.int_under_attribute.pars', 'x = (1).real', lambda f: f.body[0].value.value, lambda n: n.put(2, 'value'),
+     'x = (2).real'),
+    ('node.int_under_attribute', 'x = a.real', lambda f: f.body[0].value.value, lambda n: n.replace('2'), 'x = (2).real'),
+    ('node.float_under_attribute', 'x = a.real', lambda f: f.body[0].value.value, lambda n: n.replace('2.5'), 'x = 2.5.real'),
+]
 
 
 def _find(tree, pred):
@@ -76,8 +106,10 @@ def main(payload):
     refused = 0
 
     def fail(key, what, **kw):
-        if len(failures) < 40:
-            failures.append(dict(key=f'C09.B.{key}', what=what, replayed=True, **kw))
+        from contracts.b_lib import room
+        ok, kn = room(failures, f"C09.B.{key}", 40, 8)
+        if ok:
+            failures.append(dict(key=f'C09.B.{key}', what=what, replayed=True, _known=kn, **kw))
 
     groups = [(k_prec.SLOTS + EXTRA_SLOTS, k_prec.EXPR_CHILDREN + MULTI_CHILDREN + COMMENT_CHILDREN, False),
               (k_prec.TARGET_SLOTS, k_prec.TARGET_CHILDREN, False),
@@ -142,6 +174,8 @@ def main(payload):
                             got = _at(new, path)
                         except Exception:
                             got = None
+                        if not isinstance(got, ast.AST):
+                            got = None
                         if got is None or _norm(ast.dump(got)) != _norm(ast.dump(exp)):
                             # a Tuple put into a subscript slice / Starred contexts may legitimately restructure
                             fail(key + ':regroup', f'replacing the {sname} slot ({lname} layout) by {cname} {csrc!r}: the edited '
@@ -152,6 +186,31 @@ def main(payload):
                         if len(samples) < 3:
                             samples.append({'slot': sname, 'child': cname, 'layout': lname, 'form': form,
                                             'result': root.src.strip()[:80]})
+    for name, src0, getter, op, want_src in SPECIALS:
+        ev += 1
+        try:
+            root = FST(src0, 'exec')
+            node = getter(root)
+            want = _norm(ast.dump(ast.parse(want_src)))
+        except Exception as e:
+            fail(f'special:{name}:setup', f'harness: {e!r}')
+            continue
+        try:
+            op(node)
+        except Exception:
+            refused += 1
+            distinct.add(('refused', 'special', name))
+            continue
+        distinct.add(('ok', 'special', name))
+        try:
+            got = _norm(ast.dump(ast.parse(root.src)))
+        except SyntaxError as e:
+            fail(f'special:{name}:syntax', f'{name}: on {src0!r} the edited source {root.src!r} does not parse: {e.msg}',
+                 src_after=root.src[:200])
+            continue
+        if got != want:
+            fail(f'special:{name}:regroup', f'{name}: on {src0!r} the edited source {root.src!r} does not denote {want_src!r}',
+                 src_after=root.src[:200])
     return {'name': 'C09.B.put_path', 'evaluations': ev, 'distinct_nontrivial': len(distinct),
             'rule': 'every slot template of the precedence domain x target layout {bare, parenthesised (thorough: tight '
                     'against a keyword, multi-line)} x every child kind (+ multi-line children) x code form {source '
